@@ -16,7 +16,8 @@ def sanitize_tokens(tokens: Iterable[Token]) -> Iterable[Token]:
         - possible more in the future
     """
     for token in tokens:
-        if token.token == ".":  # noqa: S105
+        if token.token == "." and token.kind is not Token.Kind.NAME:  # noqa: S105
+            # (a back-quoted `.` is a column of that name, not the operator)
             token.kind = Token.Kind.OPERATOR
         if token.kind is Token.Kind.PYTHON:
             token.token = sanitize_python_code(token.token)
